@@ -922,3 +922,34 @@ func Verif_C03_xref_stream_fields() {
 		verifrt.Assert(ok, "every in-use entry written by the library resolves")
 	}
 }
+
+// Verif_C03_xref_table_fields: the classic cross-reference table written for
+// an in-use entry with a symbolic offset (< 10^10) and generation and a free
+// entry with a symbolic generation: the strict reader, which insists on
+// 20-byte lines with 10- and 5-digit fields, decodes exactly these values.
+func Verif_C03_xref_table_fields() {
+	sb := &verifSeekBuf{}
+	v := []Version{V1_4, V1_7}[verifrt.Choice("version", 2)]
+	w, err := NewWriter(sb, v, &WriterOptions{HumanReadable: v == V1_7, ID: [][]byte{[]byte("0123456789abcdef"), []byte("0123456789abcdef")}})
+	verifrt.Assert(err == nil, "NewWriter succeeds")
+	if err != nil {
+		return
+	}
+	r1, r3 := w.Alloc(), w.Alloc()
+	pos := verifrt.Int64("pos")
+	verifrt.Assume(pos >= 0 && pos < 10000000000)
+	gen := verifrt.Uint16("gen")
+	w.xref[r1.Number()] = &xRefEntry{Pos: pos, Generation: gen}
+	_ = r3 // allocated, never written: a free entry
+	w.GetMeta().Catalog.Pages = w.Alloc()
+	verifrt.Assert(w.Close() == nil, "Close succeeds")
+	f := sReadXRef(sb.b)
+	verifrt.Assert(f.ok, "cross-reference table is well formed (20-byte lines)")
+	if !f.ok {
+		return
+	}
+	verifrt.Cover("decoded")
+	e1, e3 := f.entries[int64(r1.Number())], f.entries[int64(r3.Number())]
+	verifrt.Assert(e1.kind == 1 && e1.f2 == pos && e1.f3 == int64(gen), "in-use entry holds the offset and generation")
+	verifrt.Assert(e3.kind == 0, "a never-written number has a free entry")
+}
